@@ -11,6 +11,8 @@ def main():
         shutil.copy(os.path.join(z.REPO, "Cargo.lock"), lock)
     t = z.build_harness()
     print(f"harness built in {t:.0f}s")
+    z.build_zeep_bin()
+    print("zeep binary built")
     p = subprocess.run(["java", "-cp", z.TLA_CP, "tlc2.TLC", "-h"], stdout=subprocess.PIPE, stderr=subprocess.STDOUT)
     if b"TLC" not in p.stdout:
         print("TLC not runnable", file=sys.stderr)
